@@ -564,4 +564,64 @@ example : IsPow (fun b t : ℚ => if t ≤ 0 then 1 else b) ∧
   · intro d hd; simp at hd; subst hd; norm_num
   all_goals norm_num [xnpv, xnpvFrom]
 
+/-! ### XIRR and the library solver: what holds today (known finding D2002)
+
+GOAL (full strength; *not* a theorem today):
+
+    ∀ flows/dates with `XOutlayThenReturns`, ∃ r, XIRR pw newton vs ds 0.1 = .ok r ∧ |r − root| < 10⁻⁶
+
+`solve` is an uninterpreted parameter, so nothing can be proved about its success, and for the solver
+the code uses (scipy's secant iteration started at `guess` and `guess·(1+10⁻⁴)+10⁻⁴`) the goal is false:
+for −100 followed by 300 sixty years later (root 1.85 %) the first secant step from the default guess
+lands at −1.74 < −1 (first `example` below, exact arithmetic — whole-year offsets make the power
+rational), where `_xnpv` is `+inf`; the iteration then stalls and reports its start value 0.10011.
+Since the fix a63cb41 the acceptance test rejects that value (second `example`) and XIRR answers #NUM!
+instead of 0.10011 (third `example`); the check lists such inputs as known finding D2002.
+
+What is proved (`xirr_partial`): every rate XIRR returns was produced by the solver on the non-zero
+flows in date order *and* passed the residual test `|XNPV(r)| ≤ 10⁻⁶ · Σ|vᵢ|/(1+r)^tᵢ`. -/
+
+theorem xirr_partial (w : ℚ → ℚ → ℚ) (solve : (ℚ → Res) → ℚ → Option ℚ)
+    (vs ds : List ℚ) (g r : ℚ) (h : XIRR w solve vs ds g = .ok r) :
+    vs.length = ds.length ∧
+    solve (fun x => _xnpv w x ((xirrSeries vs ds).map (·.1)) ((xirrSeries vs ds).map (·.2))) g = some r ∧
+    xirrAccepts w r ((xirrSeries vs ds).map (·.1)) ((xirrSeries vs ds).map (·.2)) = true := by
+  unfold XIRR at h
+  by_cases hlen : vs.length = ds.length
+  · have h1 : ¬ (vs.length ≠ ds.length) := by simpa using hlen
+    simp only [h1, if_false] at h
+    split at h
+    · cases h
+    · rename_i rate hs
+      split at h
+      · rename_i hacc
+        cases h
+        exact ⟨hlen, hs, hacc⟩
+      · cases h
+  · simp [hlen] at h
+
+/-- exact power for whole-year offsets (`t` a natural number of years) -/
+def yearPow (b t : ℚ) : ℚ := b ^ t.num.toNat
+
+/-- D2002, the mechanism: the first secant step from the default guess leaves (−1, ∞) -/
+example :
+    let f := fun r : ℚ => xnpv (yearPow (1 + r)) [-100, 300] [40000, 61900]
+    let p0 : ℚ := 1 / 10
+    let p1 : ℚ := 10011 / 100000
+    p1 - f p1 * (p1 - p0) / (f p1 - f p0) ≤ -1 := by
+  have h60 : Int.toNat 60 = 60 := rfl
+  norm_num [xnpv, xnpvFrom, yearPow, h60]
+
+/-- … the stalled iterate 0.10011 does not pass the acceptance test … -/
+example : xirrAccepts yearPow (10011 / 100000) [-100, 300] [40000, 61900] = false := by
+  decide +kernel
+
+/-- … so a solver that reports it makes XIRR answer #NUM! (and not 0.10011, as before a63cb41). -/
+example : XIRR yearPow (fun _ _ => some (10011 / 100000)) [-100, 300] [40000, 61900] (1 / 10) = .err .num := by
+  decide +kernel
+
+/-- non-vacuity of `xirr_partial`: a solver that reports the root 10 % of −100, 110 one year apart is accepted -/
+example : XIRR yearPow (fun _ _ => some (1 / 10)) [-100, 0, 110] [43831, 43900, 44196] (1 / 10) = .ok (1 / 10) := by
+  decide +kernel
+
 end XlVerif.Props.C20
